@@ -168,6 +168,16 @@ def reorg (s : LP α) (first : Nat) : LP α :=
       rollup := s.tb.rollup.reorg first },
     halted := if affected > 0 then false else s.halted }
 
+/-- `Reorg` with a storage fault on the first row of one of its three deletes (`0` block rows, `1` L1 info tree roots,
+    `2` rollup exit tree roots): the fault only exists if such a row exists; the transaction is rolled back, nothing changes
+    and the error is reported (`true`) -/
+def reorgFault (s : LP α) (first : Nat) (tbl : Nat) : LP α × Bool :=
+  let hits := match tbl with
+    | 0 => s.tb.blocks.any (fun b => decide (b ≥ first))
+    | 1 => s.tb.info.roots.any (fun r => decide (r.blockNum ≥ first))
+    | _ => s.tb.rollup.roots.any (fun r => decide (r.blockNum ≥ first))
+  if hits then (s, true) else (reorg s first, false)
+
 def restart (H : HashAlg α) (n : Nat) (s : LP α) : LP α := { s with t := AOT.new H n, halted := false }
 
 def lastProcessedBlock (s : LP α) : Nat := s.tb.blocks.foldl max 0
